@@ -37,7 +37,9 @@ SENSF_REQ = H("00ffff0100")
 
 SENSE_KINDS = ("STTA2", "STTA4", "STTADEP", "STTA1", "STTA0", "STTA212", "STTB106", "STTB212", "STTB424", "STTB848",
                "STTF212", "STTF424", "SDEP106", "SDEP212", "SDEP424")
-LISTEN_KINDS = ("LA2", "LA4", "LA4D", "LADEP", "LA212", "LB106", "LF212", "LF424", "LDEPA", "LDEPF", "LDEPACT")
+LISTEN_KINDS = ("LA2", "LA4", "LA4D", "LADEP", "LA212", "LB106", "LF212", "LF424", "LDEPA", "LDEPF", "LDEPACT",
+                "LDEPDSL", "LDEPRLS")
+DSL_REQ, RLS_REQ = H("d408"), H("d40a")
 CLOSE_KINDS = ("XCLOSE", "SCLOSE", "LCLOSE")     # frontend closed while exchange() / sense() / listen() waits for the lock
 OP_KINDS = SENSE_KINDS + LISTEN_KINDS + CLOSE_KINDS
 PN53X = ("pn531", "pn532", "pn533", "rcs956", "acr122", "arygon")
@@ -153,7 +155,9 @@ def scenario_pn53x(driver, kind):
     # ---- listen
     if driver == "acr122" or kind in ("LA212", "LB106"):
         return Scn(tg, "Unsupported")
-    if pers == "rcs956" and (kind in ("LA4", "LA4D", "LDEPACT") or kind.startswith("LF")):
+    if pers == "rcs956" and kind in ("LDEPDSL", "LDEPRLS"):
+        pass
+    elif pers == "rcs956" and (kind in ("LA4", "LA4D", "LDEPACT") or kind.startswith("LF")):
         return Scn(tg, "Unsupported" if kind != "LDEPACT" else "NoTarget",
                    script={} if kind != "LDEPACT" else {0x8C: []})
     sel = bytes(tg.sel_res) if tg.sel_res else b""
@@ -180,6 +184,9 @@ def scenario_pn53x(driver, kind):
     if kind == "LDEPF":
         return Scn(tg, "Target", "424F", dict(dep, psl_req=PSL_REQ, psl_res=PSL_RES, sensf_res=SENSF_RES),
                    {0x8C: [b"\x24" + framed(ATR_REQ)], 0x88: [b"\x00" + framed(PSL_REQ), b"\x00" + framed(DEP_REQ)]})
+    if kind in ("LDEPDSL", "LDEPRLS"):                    # deselected / released right after the ATR_RES
+        req = DSL_REQ if kind == "LDEPDSL" else RLS_REQ
+        return Scn(tg, "NoTarget", script={0x8C: [b"\x04" + framed(ATR_REQ)], 0x88: [b"\x00" + framed(req)]})
     if kind == "LDEPACT":
         return Scn(tg, "Target", "424F", dep,
                    {0x8C: [b"\x25" + framed(ATR_REQ)], 0x88: [b"\x00" + framed(DEP_REQ)]})
@@ -229,6 +236,10 @@ def scenario_rcs380(driver, kind):
         return Scn(tg, "Target", "424F", dict(dep_req=DEP_REQ, atr_req=ATR_REQ, psl_req=PSL_REQ, sensf_res=SENSF_RES),
                    {0x48: [tgrx("424F", framed(ATR_REQ)), tgrx("424F", framed(PSL_REQ)), tgrx("424F", b""),
                            tgrx("424F", framed(DEP_REQ))]})
+    if kind in ("LDEPDSL", "LDEPRLS"):
+        req = DSL_REQ if kind == "LDEPDSL" else RLS_REQ
+        return Scn(tg, "NoTarget", script={0x48: [tgrx("106A", b"\xf0" + framed(ATR_REQ)), tgrx("106A", b"\xf0" + framed(req)),
+                                                  tgrx("106A", b"")]})
     if kind == "LDEPACT":                                 # active mode activation is ignored by this driver
         return Scn(tg, "NoTarget", script={0x48: [tgrx("424F", framed(ATR_REQ), 1)]})
     raise KeyError(kind)
@@ -279,6 +290,11 @@ def scenario_udp(driver, kind):
                                               psl_req=PSL_REQ, psl_res=PSL_RES, dep_req=DEP_REQ),
                    ([dg("424F", framed(SENSF_REQ))], [dg("424F", framed(ATR_REQ_F)), dg("424F", framed(PSL_REQ)),
                                                        dg("424F", framed(DEP_REQ))]))
+    if kind in ("LDEPDSL", "LDEPRLS"):
+        req = DSL_REQ if kind == "LDEPDSL" else RLS_REQ
+        return Scn(tg, "NoTarget",
+                   script=([dg("106A", b"\x26")], [dg("106A", b"\x93\x20"), dg("106A", b"\x93\x70" + LUID + LBCC),
+                                                    dg("106A", b"\xf0" + framed(ATR_REQ)), dg("106A", b"\xf0" + framed(req))]))
     if kind == "LDEPACT":                                 # ATR_REQ without preceding SENSF_REQ (as in active mode)
         return Scn(tg, "Target", "424F", dict(atr_req=ATR_REQ, atr_res=ATR_RES, dep_req=DEP_REQ),
                    ([dg("424F", framed(ATR_REQ))], [dg("424F", framed(DEP_REQ))]))
